@@ -240,7 +240,7 @@ def check_map(seq, acc, sample=False):
         for atom, targets in weights.items():
             for bead, weight in targets.items():
                 have = got[key].get(atom, {}).get(bead)
-                if have is None or abs(have - weight) > 1e-12:
+                if have is None or not abs(have - weight) <= 1e-12:
                     acc.violation('map:weights', '%r: weight of %s -> %s is %r, the file declares %r' % (key, atom, bead, have, weight), case)
                     return
         if {a: set(t) for a, t in got[key].items()} != {a: set(t) for a, t in weights.items()}:
@@ -306,7 +306,7 @@ def check_map_rounds(rounds, acc):
                     got.setdefault(atom, {})[bead] = weight
             flat_got = {(a, b): w for a, t in got.items() for b, w in t.items()}
             flat_want = {(a, b): w for a, t in want.items() for b, w in t.items()}
-            if set(flat_got) != set(flat_want) or any(abs(flat_got[k] - flat_want[k]) > 1e-12 for k in flat_want):
+            if set(flat_got) != set(flat_want) or any(not abs(flat_got[k] - flat_want[k]) <= 1e-12 for k in flat_want):
                 acc.violation('map:rounds-weights', 'read %d of %r (block atoms %r): %s loaded as %r, the file declares %r' % (
                     step + 1, list(rounds), from_blocks[name], name, got, want), case)
                 ok = False
